@@ -290,6 +290,8 @@ def stepTT (s : PState) : TT → Option PState
       else none
     | .rep d args buffer =>
       if isRepeatOp t.kind then
+        -- `/` in front of `*` would open a comment
+        if (match buffer with | some b => b.text == ['/'] | none => false) && t.kind == .Star then none else
         let another := match buffer with
           | none => none
           | some b => if (RF.Comment.trim b.text).isEmpty then none else some [ptok b]
